@@ -8,6 +8,7 @@ package hashing
 //@   pure
 //@   allocates h
 //@   ensures [empty] h != nil && stream[ref(h)] == ""
+//@   ensures [implementation] typeIs(h, "*hashing.xxh3Hasher") || typeIs(h, "*hashing.sha256Hasher")
 
 //@ func HashString(str) (r)
 //@   pure
@@ -47,3 +48,8 @@ package hashing
 //@        H(defStream(old(target), old(dependencyHashes), keys(target.Fingerprint), vals(target.Fingerprint), config.Global.OS, config.Global.Arch)),
 //@        H(defStream(old(target), old(dependencyHashes), keys(target.Fingerprint), vals(target.Fingerprint), config.Global.OS, config.Global.Arch)) + "_" +
 //@        H(encFilesArr(arr(sortseq(bagOf(old(target.Inputs)))), len(target.Inputs), pathJoin(config.Global.WorkspaceRoot, target.Label.Package))))
+
+// digest of one file's content (output handlers)
+//@ func HashFile(filePath) (h, err)
+//@   pure
+//@   ensures [digest_of_content] err == nil ==> has(fsIsFile, filePath) && h == H(select(fsData, filePath))
